@@ -17,11 +17,13 @@ from engine.minieval import Evaluator, Obj, Raised, Unsupported
 
 PID = "C08"
 EXPLANATION = (
-    "Static checks of the dispatch layer and of the sparsity (key-set) semantics. (1) Every function of the interface module "
-    "that delegates to a method must find that method in the method resolution order of each array class; where the wrapper "
-    "falls back to autoray on AttributeError, a missing method is reported as a dispatch cycle (autoray's symmray backend resolves "
-    "the name to the same wrapper). (2) Each wrapper forwards each of its parameters exactly once, in the method's order, and is "
-    "exported / registered under its own name. (3) The blockwise binary operation and multiply_diagonal are abstractly "
+    "Checks of the dispatch layer and of the sparsity (key-set) semantics. (1)+(2) Every function of the interface module is invoked, "
+    "by the checker's evaluator on shaped tokens, in the three ways a user can reach it - as symmray.<name>(...), as the method of "
+    "the same name, and through the autoray dispatch ar.do('<name>', ...), which resolves to symmray.<name> - on an abelian array, a "
+    "fermionic array with pending signs and, where the method exists, a block vector; the three results must be equal (same class, "
+    "indices, charge, blocks, pending signs). A wrapper whose method is missing falls into its AttributeError fallback, which asks "
+    "autoray for the same name and re-enters the wrapper: reported as a dispatch cycle. Each function must be exported and every "
+    "autoray registration must point at the function of its own name. (3) The blockwise binary operation and multiply_diagonal are abstractly "
     "interpreted (the checker's own evaluator, over tokens instead of arrays) on the finite key-set domain {left-only, shared, "
     "right-only}: for every combination of empty/non-empty regions the result key set must be L (strict, else raise), L union R "
     "(outer), L intersect R (inner), and block values must combine left and right tokens through the given function exactly on "
@@ -77,7 +79,86 @@ class Tok:
         return f"Tok{self.term}"
 
 
+def _snapshot(v):
+    """structural value of a result, for comparing two ways of invoking the same operation"""
+    from rules.sem_layout import ixdesc
+
+    if isinstance(v, Obj):
+        f = v.fields
+        if "_indices" in f:
+            return (v.cls.name, tuple(ixdesc(i) for i in f["_indices"]), repr(f.get("_charge")),
+                    tuple(sorted((repr(k), repr(getattr(b, "term", b)), getattr(b, "shape", None)) for k, b in f["_blocks"].items())),
+                    tuple(sorted((repr(k), p) for k, p in (f.get("_phases") or {}).items())), len(f.get("_oddpos", ()) or ()))
+        if "_blocks" in f:
+            return (v.cls.name, tuple(sorted((repr(k), repr(getattr(b, "term", b))) for k, b in f["_blocks"].items())))
+        return (v.cls.name, repr(sorted(f)))
+    if isinstance(v, (tuple, list)):
+        return tuple(_snapshot(x) for x in v)
+    return repr(getattr(v, "term", v))
+
+
+def _samples(prog, w, fname, params, kind):
+    """sample operands for an interface function, chosen by parameter name; kind in {abelian, fermionic, vector}"""
+    from engine.absarray import STok
+    from engine.absops import TABLES, Spec, partner
+
+    fm = kind == "fermionic"
+    sym = "U1"
+    t = TABLES[sym]
+    if kind == "vector":
+        vec = lambda: Obj(prog.cls("BlockVector"), {"_blocks": {c: STok(("v", c), (d,)) for c, d in t[0].items()}})  # noqa: E731
+        main = vec
+    elif fname == "trace":
+        sp = Spec(sym, (True, False), 0, (t[0], t[0]), drop="first", fermionic=fm, signs=(1 if fm else 0))
+        main = lambda: sp.build(w)  # noqa: E731
+    elif fname == "squeeze":
+        sp = Spec(sym, (False, True, False), 1, (t[0], {0: 1}, t[1]), drop="first", fermionic=fm, signs=(1 if fm else 0))
+        main = lambda: sp.build(w)  # noqa: E731
+    else:
+        sp = Spec(sym, (False, True, False), 1, t[:3], drop="first", fermionic=fm, signs=(2 if fm else 0))
+        main = lambda: sp.build(w)  # noqa: E731
+    out = {}
+    for p_ in params:
+        if p_ in ("x", "a"):
+            out[p_] = main
+        elif p_ == "y":
+            other = partner(sp, 1, 1, drop="alternate")
+            out[p_] = lambda other=other: other.build(w)
+        elif p_ == "eq":
+            out[p_] = lambda: "abc->cab"
+        elif p_ == "axes" and fname == "align_axes":
+            out[p_] = lambda: ((2,), (0,))
+        elif p_ == "axes":
+            out[p_] = lambda: (2, 0, 1)
+        elif p_ == "axis":
+            out[p_] = lambda: 1
+        elif p_ == "newshape":
+            out[p_] = lambda: tuple(sum(tab.values()) for tab in t[:3])
+        elif p_ == "a_min":
+            out[p_] = lambda: -1.0
+        elif p_ == "a_max":
+            out[p_] = lambda: 1.0
+        elif p_ == "v":
+            out[p_] = lambda: Obj(prog.cls("BlockVector"), {"_blocks": {c: STok(("v", c), (d,)) for c, d in list(t[1].items())[:-1]}})
+        elif p_ == "axes_groups":
+            out[p_] = lambda: ((0, 1),)
+        else:
+            raise AnalysisError(f"interface.{fname}: no sample operand for parameter `{p_}` (new wrapper form: extend rules/c08_dispatch._samples)")
+    return out
+
+
+class _Cycle(Exception):
+    pass
+
+
 def check_interface(prog, ctx):
+    """R08.1 / R08.2 by abstract evaluation: every interface function is invoked as a function, as the method of the same
+    name and through the autoray dispatch (`ar.do(name, ...)`, which resolves to the symmray function of that name), on an
+    abelian array, a fermionic array and (where the method exists) a block vector of shaped tokens; the three results must be
+    equal.  A wrapper whose method is missing falls back to autoray, which resolves to the wrapper again: reported as a cycle."""
+    from engine.absarray import shaped_evaluator, shaped_libfn
+    from engine.absops import PYERR, World
+
     mod = prog.module("symmray.interface")
     init = prog.module("symmray")
     exported = set(init.consts.get("__all__", ()) or ())
@@ -87,73 +168,108 @@ def check_interface(prog, ctx):
         except Exception:
             raise AnalysisError("symmray.__all__ is not a constant tuple")
     regs = {name: fsrc for (backend, name, fsrc, node) in mod.registrations if backend == "symmray"}
+    w = World(prog)
     n = 0
     for name, f in sorted(mod.functions.items()):
-        if any("singledispatch" in d for d in f.decorators):
+        if name.startswith("_") or any("singledispatch" in d for d in f.decorators):
             continue
-        params = f.all_params()
-        body = [s for s in f.node.body if not (isinstance(s, ast.Expr) and isinstance(s.value, ast.Constant))]
-        ret = None
-        fallback = None
-        if len(body) == 1 and isinstance(body[0], ast.Return):
-            ret = body[0]
-        elif len(body) == 1 and isinstance(body[0], ast.Try) and len(body[0].body) == 1 \
-                and isinstance(body[0].body[0], ast.Return) and len(body[0].handlers) == 1:
-            ret = body[0].body[0]
-            h = body[0].handlers[0]
-            if src(h.type) == "AttributeError" and len(h.body) == 1 and isinstance(h.body[0], ast.Return):
-                fallback = h.body[0].value
-        ok_shape = ret is not None and isinstance(ret.value, ast.Call) and isinstance(ret.value.func, ast.Attribute) \
-            and isinstance(ret.value.func.value, ast.Name) and ret.value.func.value.id in params
-        ctx.check(ok_shape, "R08.2", f, f.node, "wrapper shape", f"interface.{name} is a single delegating return")
-        if not ok_shape:
-            continue
-        call = ret.value
-        recv = call.func.value.id
-        m = call.func.attr
-        n += 1
-        # R08.1 method resolvable in every array class
-        missing = [c for c in ARRAY_CLASSES if prog.lookup_method(prog.cls(c), m) is None]
-        if missing and fallback is not None:
-            ctx.bad("R08.1", f, call, f"{recv}.{m}()",
-                    f"no `{m}` method on {missing}: AttributeError falls back to {src(fallback)}, which autoray resolves to "
-                    f"symmray.{name} again (dispatch cycle symmray.{name} -> x.{m} ✗ -> {src(fallback)} -> symmray.{name})")
-        elif missing:
-            ctx.bad("R08.1", f, call, f"{recv}.{m}()", f"no `{m}` method on {missing}")
-        else:
-            ctx.ok("R08.1", f"{f.file}:{name}", f"x.{m} resolves on {', '.join(ARRAY_CLASSES)}")
-        ctx.check(m == name, "R08.2", f, call, f"{name} -> .{m}", f"interface.{name} delegates to the method of the same name")
-        if fallback is not None:
-            okf = isinstance(fallback, ast.Call) and src(fallback.func) == "ar.do" and len(fallback.args) == 2 \
-                and isinstance(fallback.args[0], ast.Constant) and fallback.args[0].value == name and src(fallback.args[1]) == recv
-            ctx.check(okf, "R08.2", f, fallback, src(fallback), f"fallback for non-symmray input is ar.do({name!r}, {recv})")
-        # arguments forwarded once each, in the wrapper's order (receiver excluded)
-        others = [p for p in params if p != recv]
-        fwd = []
-        for a in call.args:
-            fwd.append(src(a.value) if isinstance(a, ast.Starred) else src(a))
-        for k in call.keywords:
-            fwd.append(src(k.value))
-        ctx.check(fwd == others, "R08.2", f, call, src(call), f"forwards its parameters {others} exactly once, in order")
-        # the method accepts them positionally in that order
-        for c in ARRAY_CLASSES:
-            g = prog.lookup_method(prog.cls(c), m)
-            if g is None:
-                continue
-            gp = g.params()[1:]
-            npos = len([a for a in call.args if not isinstance(a, ast.Starred)])
-            names = [src(a) for a in call.args if not isinstance(a, ast.Starred)]
-            has_var = g.node.args.vararg is not None
-            common = [x for x in names if x in gp]
-            ok = (has_var or npos <= len(gp)) and common == [p for p in gp if p in common]
-            ctx.check(ok, "R08.2", f, call, src(call),
-                      f"{c}.{m}{tuple(gp)} accepts {npos} positional argument(s); same-named parameters keep their order")
+        a = f.node.args
+        params = [x.arg for x in a.posonlyargs + a.args] + ([a.vararg.arg] if a.vararg else [])
         ctx.check(name in exported, "R08.2", f, f.node, f"{name} not exported", f"symmray.{name} is exported in __all__")
+        for kind in ("abelian", "fermionic", "vector"):
+            cls = prog.cls({"abelian": "AbelianArray", "fermionic": "FermionicArray", "vector": "BlockVector"}[kind])
+            has_method = prog.lookup_method(cls, name) is not None
+            if kind == "vector" and (not has_method or len(params) != 1):
+                continue  # block vectors are served only where they have the method
+            samples = _samples(prog, w, name, params, kind)
+            active = []
+            get = shaped_libfn()
+
+            def ar_do(fn_name, *args, like=None, **kw):
+                target = prog.resolve_name(init, fn_name) or (mod.functions.get(regs.get(fn_name)) if fn_name in regs else None)
+                if any(isinstance(x, Obj) for x in args) and isinstance(target, FuncInfo):
+                    if fn_name in active:
+                        raise _Cycle(fn_name)
+                    active.append(fn_name)
+                    try:
+                        return ev.apply(target, list(args), kw, None)
+                    finally:
+                        active.pop()
+                return get(like, fn_name)(*args, **kw)
+
+            def build():
+                vals = []
+                for p_ in params:
+                    v = samples[p_]()
+                    if a.vararg and p_ == a.vararg.arg:
+                        vals.extend(v)
+                    else:
+                        vals.append(v)
+                return vals
+
+            results = {}
+            for way in ("function", "method", "autoray"):
+                ev = shaped_evaluator(prog, extra={"ar.do": ar_do})
+                try:
+                    vals = build()
+                    if way == "function":
+                        r = ev.apply(f, vals, {}, None)
+                    elif way == "autoray":
+                        r = ar_do(name, *vals)
+                    else:
+                        recv_i = next(i for i, p_ in enumerate(params) if p_ in ("x", "a"))
+                        recv = vals[recv_i]
+                        m = prog.lookup_method(recv.cls, name)
+                        if m is None:
+                            results[way] = ("missing", None)
+                            continue
+                        mparams = m.params()[1:]
+                        rest_names = [p_ for i, p_ in enumerate(params) if i != recv_i]
+                        rest_vals = [v for i, v in enumerate(vals[:len(params)]) if i != recv_i] + list(vals[len(params):])
+                        if a.vararg:
+                            args_, kw_ = [v for i, v in enumerate(vals) if i != recv_i], {}
+                        else:
+                            # by name where the method has a parameter of that name, positionally otherwise
+                            args_, kw_ = [], {}
+                            for pn, v in zip(rest_names, rest_vals):
+                                if pn in mparams:
+                                    kw_[pn] = v
+                                else:
+                                    args_.append(v)
+                        r = ev.call(m, args_, kw_, self_obj=recv)
+                    results[way] = ("ok", _snapshot(r))
+                except _Cycle as e:
+                    results[way] = ("cycle", str(e))
+                except Unsupported as e:
+                    raise AnalysisError(f"interface.{name} ({kind}, as {way}) outside the evaluable sub-language: {e}")
+                except Raised as e:
+                    results[way] = ("raised", getattr(e, "exc_name", None))
+                except RecursionError:
+                    results[way] = ("cycle", "recursion")
+                except PYERR as e:
+                    results[way] = ("error", f"{type(e).__name__}: {e}")
+            n += 1
+            fn_r, me_r, au_r = results["function"], results["method"], results["autoray"]
+            if "cycle" in (fn_r[0], au_r[0]):
+                ctx.bad("R08.1", f, f.node, f"{name}:{kind}:cycle",
+                        f"symmray.{name} on a {cls.name}: the method is missing, the AttributeError fallback asks autoray for "
+                        f"'{name}', which resolves to symmray.{name} again (dispatch cycle)")
+                continue
+            if me_r[0] == "missing":
+                ctx.bad("R08.1", f, f.node, f"{name}:{kind}:missing", f"no `{name}` method on {cls.name}: symmray.{name} gives {fn_r}")
+                continue
+            ctx.ok("R08.1", f"{f.file}:{name}", f"x.{name} resolves on {cls.name}; no dispatch cycle")
+            ctx.check(fn_r == me_r, "R08.2", f, f.node, f"{name}:{kind}:function-vs-method",
+                      f"symmray.{name}(...) and the method .{name}(...) give the same result on a {cls.name}"
+                      + ("" if fn_r == me_r else f" — function: {str(fn_r)[:160]} / method: {str(me_r)[:160]}"))
+            ctx.check(au_r == fn_r, "R08.2", f, f.node, f"{name}:{kind}:autoray-vs-function",
+                      f"autoray dispatch of '{name}' and symmray.{name}(...) give the same result on a {cls.name}"
+                      + ("" if au_r == fn_r else f" — autoray: {str(au_r)[:160]} / function: {str(fn_r)[:160]}"))
     for rname, fsrc in sorted(regs.items()):
         ctx.check(fsrc == rname and rname in mod.functions, "R08.2", (mod.relpath, rname), None, f"register {rname} -> {fsrc}",
                   f"autoray registration '{rname}' points at the function of the same name")
-    ctx.minimum("R08.1", 20, "interface wrappers")
-    ctx.minimum("R08.2", 80, "wrappers x (shape, name, forwarding, order, export)")
+    ctx.minimum("R08.1", 40, "interface wrappers x array classes")
+    ctx.minimum("R08.2", 80, "wrappers x (export, function = method, autoray = function)")
 
 
 # --------------------------------------------------------------------------- key-set semantics
@@ -349,8 +465,8 @@ def check_unary(prog, ctx):
 def run(prog, ctx):
     ctx.rule("R08.1", "every interface wrapper's method exists on AbelianArray and FermionicArray; a missing method behind an "
              "AttributeError fallback is a dispatch cycle")
-    ctx.rule("R08.2", "wrappers are single delegating returns that forward each parameter once, in the method's order, delegate to "
-             "the same name, and are exported / registered under it")
+    ctx.rule("R08.2", "invoked as a function, as the method of the same name and through autoray dispatch, every interface operation "
+             "gives the same result; each is exported / registered under its own name")
     ctx.rule("R08.3", "abstract interpretation of _binary_blockwise_op over key regions: strict -> L or raise, outer -> L union R, "
              "inner -> L intersect R; values fn(l, r) on the shared region only")
     ctx.rule("R08.4", "operator dunders agree with the table (function, allowed missing mode, in-place flag, scalar operand order); "
